@@ -263,6 +263,12 @@ class Interp:
         op = op.strip()
         if op.startswith('copy ') or op.startswith('move '):
             pl, _ = parse_place(op[5:]); p = s.eval_place(st, fr, pl); v = st.load(p)
+            if isinstance(v, Opaque) and v.what == 'count' and p.root[0] == 'H' and hasattr(s, 'plain_count_read'):
+                return s.plain_count_read(st, p)
+            if isinstance(v, Opaque) and v.what == 'count' and p.root[0] == 'H':
+                # a plain (non-atomic) read of the count word of a shared block: an event like any other read
+                # of that location, but with no ordering and racing with every unordered write (rc11 q2)
+                r = st.fresh('r'); st.ev(kind='R', loc=('cnt', p.root[1]), ord='na', rval=r, op='plain-read'); return r
             if op.startswith('move ') and isinstance(v, Opaque) and v.what == 'payload' and p.root[0] == 'H':
                 st.ev(kind='Rna', loc=('data', p.root[1]), note='move-out')
                 st.store(p, MOVED)
@@ -388,6 +394,9 @@ class Interp:
         if n == 'fence' or n.endswith('::fence'):
             st.ev(kind='F', ord=args[0][1]); return cont(st, Opaque('unit'))
         if n.endswith('Atomic::new'): return cont(st, Struct('Atomic', [args[0]]))
+        if re.search(r'Atomic::(as_ptr|get_mut)$', n):
+            p0 = args[0]
+            if isinstance(p0, Ptr): return cont(st, Ptr(p0.root, p0.path + (0,)))
         if re.search(r'(NonNull::(new_unchecked|as_ptr|cast)|ManuallyDrop::(new|into_inner)|Box::from_raw)$', n): return cont(st, args[0])
         if re.search(r'<ManuallyDrop as (Deref|DerefMut)>::(deref|deref_mut)$', n): return cont(st, args[0])
         if n.endswith('Box::new'):
@@ -399,6 +408,12 @@ class Interp:
             b = st.load(args[0]); st.ev(kind='FREE', loc=('blk', b.root[1])); return cont(st, Opaque('unit'))
         if n.endswith('process::abort') or n == 'abort': st.ev(kind='ABORT'); raise PathEnd('abort')
         if n.endswith('mem::forget'): return cont(st, Opaque('unit'))
+        if n.endswith('drop_in_place'):
+            p0 = args[0]
+            if isinstance(p0, Ptr) and p0.root[0] == 'H' and p0.path in ((), (1,)):
+                st.ev(kind='DESTROY', loc=('data', p0.root[1])); return cont(st, Opaque('unit'))
+            ty = s.generic_arg(getattr(s, '_raw_callee', ''))
+            return s.drop_value(st, ty, p0, 0, lambda st2: cont(st2, Opaque('unit')))
         if n.endswith('mem::drop'):
             ty = s.generic_arg(getattr(s, '_raw_callee', ''))
             st.nheap += 1; root = ('T', st.nheap); st.mem[root] = args[0]
